@@ -25,8 +25,9 @@ from mc import par, pipeline
 ID = "C19"
 LEVEL = "model_checking"
 
-MODULES_QUICK = ["numeric", "containers", "shapes"]
-MODULES_THOROUGH = ["numeric", "containers", "shapes", "strings", "raising"]
+MODULES_QUICK = ["numeric", "containers", "shapes", "stateful"]
+MODULES_THOROUGH = ["numeric", "containers", "shapes", "strings", "raising", "stateful"]
+SEQUENCE_MODULES = {"stateful"}
 STRATEGIES = [("NONE", "BACKWARD"), ("CASE", "BACKWARD"), ("CASE", "FORWARD"), ("SUITE", "BACKWARD"),
               ("COMBINED", "BACKWARD")]
 
@@ -107,9 +108,16 @@ def shard(col, module, mode, pop_bound, limit, pairs):
     scratch = tempfile.mkdtemp(prefix="c19_", dir="/dev/shm")
     try:
         pipe = pipeline.Pipe(module, scratch)
-        tests, _ = pipe.population(bound=pop_bound, limit=limit)
-        groups = [[t] for t in tests] + [list(p) for p in itertools.islice(
-            itertools.combinations(tests[:: max(1, len(tests) // 8)], 2), pairs)]
+        if module in SEQUENCE_MODULES:
+            # stateful API: call sequences on ONE object (a value that changes and later returns to a previous
+            # value: A -> B -> A), singletons only
+            tests = [t for t in pipe.population_sequences(4 if pop_bound > 1 else 3)
+                     if t.size() >= 3 and t.to_code().count("Switch()") == 1]
+            groups = [[t] for t in tests]
+        else:
+            tests, _ = pipe.population(bound=pop_bound, limit=limit)
+            groups = [[t] for t in tests] + [list(p) for p in itertools.islice(
+                itertools.combinations(tests[:: max(1, len(tests) // 8)], 2), pairs)]
         # Assertion minimisation (mutation analysis, checked coverage) may legitimately keep any subset
         # of the generated assertions; the subsets that matter for this property are enumerated:
         # everything, only assertions whose source is a bare variable, only dotted (field) sources.
